@@ -41,7 +41,10 @@ type GroupRouter struct {
 	cancel context.CancelFunc
 
 	mu     sync.RWMutex
-	routes map[string]string // groupID -> brokerID
+	routes map[string]string
+	// rev is the etcd revision the table reflects: the watch resumes right
+	// after it, so no change between a (re)load and the watch start is missed.
+	rev int64 // groupID -> brokerID
 }
 
 // NewGroupRouter creates a router and starts watching etcd for group lease changes.
@@ -117,6 +120,9 @@ func (r *GroupRouter) loadAll(ctx context.Context) error {
 	}
 	r.mu.Lock()
 	r.routes = fresh
+	if resp.Header != nil {
+		r.rev = resp.Header.Revision
+	}
 	r.mu.Unlock()
 	r.logger.Info("loaded group routes from etcd", "count", len(fresh))
 	return nil
@@ -124,13 +130,22 @@ func (r *GroupRouter) loadAll(ctx context.Context) error {
 
 func (r *GroupRouter) watch(ctx context.Context) {
 	for {
-		watchChan := r.client.Watch(ctx, groupLeasePrefix+"/", clientv3.WithPrefix(), clientv3.WithPrevKV())
+		opts := []clientv3.OpOption{clientv3.WithPrefix(), clientv3.WithPrevKV()}
+		r.mu.RLock()
+		if r.rev > 0 {
+			opts = append(opts, clientv3.WithRev(r.rev+1))
+		}
+		r.mu.RUnlock()
+		watchChan := r.client.Watch(ctx, groupLeasePrefix+"/", opts...)
 		for resp := range watchChan {
 			if resp.Err() != nil {
 				r.logger.Warn("group lease watch error", "error", resp.Err())
 				continue
 			}
 			r.mu.Lock()
+			if resp.Header.Revision > r.rev {
+				r.rev = resp.Header.Revision
+			}
 			for _, ev := range resp.Events {
 				etcdKey := string(ev.Kv.Key)
 				groupID, ok := groupLeaseKeyToGroupID(etcdKey)
